@@ -174,7 +174,8 @@ CLAIMED["C08"] = {
              "mpi_remote_msg_handle and gvt_phase_run, both wait loops of gvt_msg_drain step the GVT automaton, the last also drains MPI, and "
              "the thread's open round is completed before the first shutdown barrier; control_msg_process and ctrl_msgs[] cover every control "
              "code with the right handler; LP_FINI is dispatched exactly once per LP; the counter votes depend on is conserved (C07.1); for 1..8 "
-             "ranks the control-message broadcast sends one notice to every rank. NOT "
+             "ranks the control-message broadcast sends one notice to every rank, and for 1..8 threads one worker is started per thread id and all are "
+             "joined before the global finalisation. NOT "
              "decided: liveness under all interleavings of the last vote or a stop request with an open GVT round, MPI progress, spin-loop bounds."),
     "note": TRUST,
 }
@@ -226,7 +227,8 @@ CLAIMED["C20"] = {
              "the same loop) with its event; counters are thread-local, written to the thread's file before being zeroed, after the "
              "auto-checkpoint reader; thread 0 alone writes the node record; the per-thread record is written whenever a statistics file was "
              "requested and the node record under the same condition by the thread elected with rid - nothing else (rank, GVT value, log level) "
-             "decides either, by classical control dependence; every call site of gvt_phase_run forwards completed rounds to "
+             "decides either, by classical control dependence; every loop over the per-thread temporary files visits every thread (headers evaluated "
+             "for 1..8 threads); every call site of gvt_phase_run forwards completed rounds to "
              "stats_on_gvt or lies after the shutdown barrier. NOT decided: truth of timing and memory figures."),
     "note": TRUST + " The Python parser is read with the standard ast module.",
 }
